@@ -62,6 +62,11 @@ def builders(labels, C, seed):
         tied[1, :2] = 1.
     B.append((f"PseudoLabel(threshold=1/{C}, tied rows)", lambda d: KDPseudoLabelWrapper(d, pseudo_labels=tied.clone(), threshold=1.0 / C), C))
     B.append(("PseudoLabel(threshold=0.5, tied rows)", lambda d: KDPseudoLabelWrapper(d, pseudo_labels=tied.clone(), threshold=0.5), C))
+    # sampled (top-k) pseudo labels with a seed are static: the same index gives the same label on every read
+    if C >= 2:
+        probs = logits.clone().softmax(dim=1)
+        B.append(("PseudoLabel(topk=2, tau=inf, seeded)", lambda d: KDPseudoLabelWrapper(d, pseudo_labels=probs.clone(), topk=2, tau=float("inf"), seed=seed), C))
+        B.append(("PseudoLabel(topk=2, probs, seeded)", lambda d: KDPseudoLabelWrapper(d, pseudo_labels=probs.clone(), topk=2, seed=seed), C))
     for mode in ("random", "randperm"):
         B.append((f"RandomClass({mode})", lambda d, mode=mode: KDRandomClassWrapper(d, mode=mode, seed=seed), C))
     for sp in (0.0, 0.4, 1.0):
@@ -79,6 +84,12 @@ def check_wrapper(name, build, rng_range, labels, C):
     n = len(labels)
     per = [w.getitem_class(i) for i in range(n)]
     per = [p.item() if torch.is_tensor(p) else p for p in per]
+    # reproducible: repeated and reordered reads of the same instance give the same label (seeded wrappers are static)
+    for rep in range(3):
+        again = [w.getitem_class(i) for i in (range(n) if rep % 2 == 0 else reversed(range(n)))]
+        again = [p.item() if torch.is_tensor(p) else p for p in again]
+        if (again if rep % 2 == 0 else again[::-1]) != per:
+            return {"what": "repeated reads of the same index give different labels", "wrapper": name, "first": per, "again": again}
     try:
         bulk = w.getall_class()
     except NotImplementedError:
@@ -120,6 +131,23 @@ def check_encodings(labels, C):
     return None
 
 
+def check_binary_smoothing():
+    """binary datasets (one logit): labels 0 / 1 move towards 1/2 by smoothing / 2, unlabeled samples keep the -1 marker"""
+    from kappadata.wrappers.sample_wrappers.label_smoothing_wrapper import LabelSmoothingWrapper
+    labels = [0, 1, -1, 1, -1, 0]
+    for s in (0.1, 0.5, 1.0):
+        w = LabelSmoothingWrapper(_ds(labels, 1), smoothing=s)
+        for i, l in enumerate(labels):
+            v = w.getitem_class(i)
+            v = v.flatten().tolist() if torch.is_tensor(v) else [v]
+            if l == -1:
+                if any(x != -1 for x in v):
+                    return {"what": "an unlabeled sample of a binary dataset does not keep the -1 marker after smoothing", "smoothing": s, "value": v}
+            elif len(v) != 1 or abs(v[0] - (l - s / 2 if l == 1 else l + s / 2)) > 1e-9 or not (0 <= v[0] <= 1):
+                return {"what": "binary label is not moved by smoothing / 2 towards 1/2", "smoothing": s, "label": l, "value": v}
+    return None
+
+
 def check_smoothing_after_class_change():
     """the smoothing wrapper reads the class count of the dataset it wraps on every access"""
     from kappadata.wrappers.sample_wrappers.label_smoothing_wrapper import LabelSmoothingWrapper
@@ -142,6 +170,11 @@ def search(limit, seed):
     r = check_smoothing_after_class_change()
     if r is not None:
         r["input"] = {"scenario": "LabelSmoothing over KDRandomClassWrapper, num_classes 5 -> 10 -> 3"}
+        return r, n
+    n += 1
+    r = check_binary_smoothing()
+    if r is not None:
+        r["input"] = {"scenario": "LabelSmoothing over a binary dataset with unlabeled samples", "labels": [0, 1, -1, 1, -1, 0]}
         return r, n
     layouts = [([0, 1], 2), ([1, 0, 1, 2, 2, 0], 3), ([3, 1, 0, 2, 2, 1, 0, 3], 4), ([0, 5, 2, 3, 1, 4, 4, 0], 6), ([0, -1, 1, -1, 1], 2)]
     for labels, C in layouts:
